@@ -215,12 +215,12 @@ def min_lovelace_post_alonzo(output: TransactionOutput, context: ChainContext) -
 
     # If the amount of ADA is 0, a default value of 1 ADA will be used
     if amt.coin == 0:
-        amt.coin = 1000000
+        amt = Value(1000000, amt.multi_asset)
 
     # Make sure we are using post-alonzo output
     tmp_out = TransactionOutput(
         output.address,
-        output.amount,
+        amt,
         output.datum_hash,
         output.datum,
         output.script,
